@@ -102,6 +102,73 @@ def derived_from(name, target, assigns, depth=0) -> bool:
     return False
 
 
+HELPER_VARS_PARAM: dict = {}
+
+
+def _wellformed(rep, fi, blocks, assigns, report=True, via_helper=False):
+    """ids of the `if <non-continuous list>:` tests that guard a well-formed integrality block."""
+    fname = fi.name
+    params = {a.arg for a in fi.node.args.args + fi.node.args.kwonlyargs}
+    good_tests = set()
+    # ---- shape of each block
+    for ifn, L, (comp, gen, extra) in blocks:
+        construct = f"{fname}:integrality-block"
+        rep.ob("R18.1", construct, not extra,
+               "the block runs whenever the filtered list is non-empty" if not extra else
+               f"the block is additionally guarded by `{src(extra[0])}`: when that is false, non-continuous variables are relaxed with no signal",
+               loc=f"{fi.module.rel}:{ifn.lineno}", detail="unconditional")
+        # source of the comprehension: problem.variables (possibly through a local)
+        it = gen.iter
+        src_ok = False
+        if isinstance(it, ast.Attribute) and it.attr == "variables":
+            src_ok = True
+        if isinstance(it, ast.Name):
+            for v in assigns.get(it.id, []):
+                if isinstance(v, ast.Attribute) and v.attr == "variables":
+                    src_ok = True
+            if via_helper and it.id in [a.arg for a in fi.node.args.args]:
+                # the list is a parameter of the helper: the call site must pass the problem's variables (checked there)
+                src_ok = True
+                HELPER_VARS_PARAM[fi.name] = [a.arg for a in fi.node.args.args].index(it.id)
+        rep.ob("R18.1", construct, src_ok, f"the non-continuous list '{L}' ranges over the problem's variables ({src(it)})"
+               if src_ok else f"the non-continuous list '{L}' ranges over {src(it)}, not over problem.variables", loc=f"{fi.module.rel}:{comp.lineno}", detail="ranges-over-variables")
+        # strict branch raises IntegerVariableError(names of L); other branch warns naming L
+        raise_ok = warn_ok = False
+        raise_why = "no `raise IntegerVariableError` under `strict`"
+        warn_why = "no warnings.warn in the non-strict branch"
+        for sub in ifn.body:
+            if isinstance(sub, ast.If) and "strict" in _names_in(sub.test) and "strict" in params:
+                pos = not (isinstance(sub.test, ast.UnaryOp) and isinstance(sub.test.op, ast.Not))
+                sbody, wbody = (sub.body, sub.orelse) if pos else (sub.orelse, sub.body)
+                for s in sbody:
+                    if isinstance(s, ast.Raise) and isinstance(s.exc, ast.Call) and (dotted(s.exc.func) or "").endswith("IntegerVariableError"):
+                        vals = [kw.value for kw in s.exc.keywords if kw.arg == "variable_names"] + list(s.exc.args[1:2])
+                        if vals and any(derived_from(n, L, assigns) for n in _names_in(vals[0])):
+                            raise_ok = True
+                        else:
+                            raise_why = "IntegerVariableError is raised without the names of the non-continuous variables"
+                for s in wbody:
+                    for c in calls(s):
+                        if dotted(c.func) in ("warnings.warn", "warn") and c.args:
+                            used = _names_in(c.args[0])
+                            if any(derived_from(n, L, assigns) for n in used):
+                                warn_ok = True
+                            else:
+                                warn_why = "the warning message does not interpolate the non-continuous variables' names"
+                # nothing in the strict branch may fall through silently
+                if sbody and not isinstance(sbody[-1], ast.Raise):
+                    raise_ok = False
+                    raise_why = "the strict branch does not end in raise"
+        rep.ob("R18.1", construct, raise_ok, "strict=True raises IntegerVariableError listing exactly the filtered variables" if raise_ok else raise_why,
+               loc=f"{fi.module.rel}:{ifn.lineno}", detail="strict-raises")
+        rep.ob("R18.1", construct, warn_ok, "strict=False warns with a message naming exactly the filtered variables" if warn_ok else warn_why,
+               loc=f"{fi.module.rel}:{ifn.lineno}", detail="non-strict-warns")
+        if src_ok and raise_ok and warn_ok and not extra:
+            good_tests.add(id(ifn.test))
+
+    return good_tests
+
+
 def check(prog, rep):
     bcs = backend_calls(prog)
     if not bcs:
@@ -111,72 +178,48 @@ def check(prog, rep):
         entries.setdefault(fi.qual, (fi, []))[1].append((c, which))
     rep.saw("functions calling a numerical backend", sorted(entries))
 
+    # helpers that contain a well-formed block on every path (the check may be factored out of the solver entry)
+    helper_ok = {}
+    for h in prog.functions.values():
+        if h.qual in entries or not h.module.name.startswith("optyx.solvers") or h.parent is not None:
+            continue
+        blocks_h, assigns_h = find_integrality_blocks(h)
+        if not blocks_h:
+            continue
+        good_h = _wellformed(rep, h, blocks_h, assigns_h, report=True, via_helper=True)
+        exits_h, _ = analyze(h.node.body, lambda node, facts, g=good_h: facts | {"checked"} if id(node) in g else facts, frozenset(), lambda n: False)
+        normal_h = [f for k, _n, f in exits_h if k in ("return", "fall")]
+        helper_ok[h.name] = bool(normal_h) and all("checked" in f for f in normal_h)
+    rep.saw("integrality helpers", sorted(helper_ok))
+
     for qual, (fi, sites) in sorted(entries.items()):
         fname = qual.split(":")[1]
         blocks, assigns = find_integrality_blocks(fi)
-        if not blocks:
+        calls_helper = [c for c in calls(fi.node) if dotted(c.func) in helper_ok]
+        if not blocks and not calls_helper:
             for c, which in sites:
                 rep.ob("R18.1", f"{fname}:{which.split('.')[-1]}", False,
                        f"{fname} calls {which} but contains no integrality block: integer/binary variables are relaxed without any signal",
                        loc=f"{fi.module.rel}:{c.lineno}", detail="no-block")
             continue
-        # ---- shape of each block
-        params = {a.arg for a in fi.node.args.args + fi.node.args.kwonlyargs}
-        good_tests = set()
-        for ifn, L, (comp, gen, extra) in blocks:
-            construct = f"{fname}:integrality-block"
-            rep.ob("R18.1", construct, not extra,
-                   "the block runs whenever the filtered list is non-empty" if not extra else
-                   f"the block is additionally guarded by `{src(extra[0])}`: when that is false, non-continuous variables are relaxed with no signal",
-                   loc=f"{fi.module.rel}:{ifn.lineno}", detail="unconditional")
-            # source of the comprehension: problem.variables (possibly through a local)
-            it = gen.iter
-            src_ok = False
-            if isinstance(it, ast.Attribute) and it.attr == "variables":
-                src_ok = True
-            if isinstance(it, ast.Name):
-                for v in assigns.get(it.id, []):
-                    if isinstance(v, ast.Attribute) and v.attr == "variables":
-                        src_ok = True
-            rep.ob("R18.1", construct, src_ok, f"the non-continuous list '{L}' ranges over the problem's variables ({src(it)})"
-                   if src_ok else f"the non-continuous list '{L}' ranges over {src(it)}, not over problem.variables", loc=f"{fi.module.rel}:{comp.lineno}", detail="ranges-over-variables")
-            # strict branch raises IntegerVariableError(names of L); other branch warns naming L
-            raise_ok = warn_ok = False
-            raise_why = "no `raise IntegerVariableError` under `strict`"
-            warn_why = "no warnings.warn in the non-strict branch"
-            for sub in ifn.body:
-                if isinstance(sub, ast.If) and "strict" in _names_in(sub.test) and "strict" in params:
-                    pos = not (isinstance(sub.test, ast.UnaryOp) and isinstance(sub.test.op, ast.Not))
-                    sbody, wbody = (sub.body, sub.orelse) if pos else (sub.orelse, sub.body)
-                    for s in sbody:
-                        if isinstance(s, ast.Raise) and isinstance(s.exc, ast.Call) and (dotted(s.exc.func) or "").endswith("IntegerVariableError"):
-                            vals = [kw.value for kw in s.exc.keywords if kw.arg == "variable_names"] + list(s.exc.args[1:2])
-                            if vals and any(derived_from(n, L, assigns) for n in _names_in(vals[0])):
-                                raise_ok = True
-                            else:
-                                raise_why = "IntegerVariableError is raised without the names of the non-continuous variables"
-                    for s in wbody:
-                        for c in calls(s):
-                            if dotted(c.func) in ("warnings.warn", "warn") and c.args:
-                                used = _names_in(c.args[0])
-                                if any(derived_from(n, L, assigns) for n in used):
-                                    warn_ok = True
-                                else:
-                                    warn_why = "the warning message does not interpolate the non-continuous variables' names"
-                    # nothing in the strict branch may fall through silently
-                    if sbody and not isinstance(sbody[-1], ast.Raise):
-                        raise_ok = False
-                        raise_why = "the strict branch does not end in raise"
-            rep.ob("R18.1", construct, raise_ok, "strict=True raises IntegerVariableError listing exactly the filtered variables" if raise_ok else raise_why,
-                   loc=f"{fi.module.rel}:{ifn.lineno}", detail="strict-raises")
-            rep.ob("R18.1", construct, warn_ok, "strict=False warns with a message naming exactly the filtered variables" if warn_ok else warn_why,
-                   loc=f"{fi.module.rel}:{ifn.lineno}", detail="non-strict-warns")
-            if src_ok and raise_ok and warn_ok and not extra:
-                good_tests.add(id(ifn.test))
-        # ---- dominance: the block has run on every path to each backend call
-        def transfer(node, facts):
-            if id(node) in good_tests:
+        good_tests = _wellformed(rep, fi, blocks, assigns, report=True) if blocks else set()
+
+        def transfer(node, facts, _good=good_tests):
+            if id(node) in _good:
                 return facts | {"checked"}
+            if not isinstance(node, (ast.FunctionDef, ast.Lambda, ast.ClassDef)):
+                for c in ast.walk(node):
+                    if isinstance(c, ast.Call) and dotted(c.func) in helper_ok and helper_ok[dotted(c.func)]:
+                        # the helper must be given the caller's strict flag and the problem's variables
+                        kws = {k.arg: src(k.value) for k in c.keywords if k.arg}
+                        argtxt = [src(a) for a in c.args] + list(kws.values())
+                        vars_ok = True
+                        hp = HELPER_VARS_PARAM.get(dotted(c.func))
+                        if hp is not None:
+                            a_ = c.args[hp] if hp < len(c.args) else None
+                            vars_ok = a_ is not None and (src(a_).endswith(".variables") or (isinstance(a_, ast.Name) and any(isinstance(v, ast.Attribute) and v.attr == "variables" for v in assigns.get(a_.id, []))))
+                        if "strict" in argtxt and vars_ok:
+                            return facts | {"checked"}
             return facts
 
         exits, ma = analyze(fi.node.body, transfer, frozenset(), lambda n: False)
@@ -190,10 +233,9 @@ def check(prog, rep):
             rep.ob("R18.1", f"{fname}:{which.split('.')[-1]}", "checked" in facts,
                    f"every path from the entry of {fname} to {which.split('.')[-1]}() passes through a well-formed integrality block"
                    if "checked" in facts else
-                   f"{which.split('.')[-1]}() at line {c.lineno} can be reached without the integrality block having run: a relaxed solve without raise/warning",
+                   f"{which.split('.')[-1]}() at line {c.lineno} can be reached without the integrality block having run (e.g. only on the first solve, only for some methods): a relaxed solve without raise/warning",
                    loc=f"{fi.module.rel}:{c.lineno}", detail="block-dominates-backend")
-        # ---- the signature has `strict` defaulting to False
-        dflt = dict(zip([a.arg for a in fi.node.args.args][::-1], fi.node.args.defaults[::-1]))
+        params = {a.arg for a in fi.node.args.args + fi.node.args.kwonlyargs}
         rep.ob("R18.2", fname, "strict" in params, f"{fname} takes a `strict` parameter" if "strict" in params else f"{fname} has no `strict` parameter", loc=fi.loc, detail="has-strict")
 
     # ---- R18.2 every call to a solver entry forwards strict
@@ -288,7 +330,8 @@ def check(prog, rep):
     # ---- R18.4 other reads of .domain
     allowed_mods = {"optyx.core.expressions", "optyx.core.vectors", "optyx.core.matrices"}
     block_lines = set()
-    for qual, (fi, _s) in entries.items():
+    block_owners = [fi for _q, (fi, _s) in entries.items()] + [h for h in prog.functions.values() if h.name in helper_ok]
+    for fi in block_owners:
         blocks, _a = find_integrality_blocks(fi)
         for ifn, L, (comp, gen, _extra) in blocks:
             block_lines.add((fi.module.name, comp.lineno))
